@@ -7,6 +7,7 @@ for d in seeded/*/; do
   n=$(basename $d)
   ids=$(python3 -c "import json;print(' '.join(sorted({k.split()[0] for k in json.load(open('$d/meta.json'))['caught_by']})))")
   echo "### $n -> $ids"
-  tools/run_mutant.sh /verif/$d/patch.diff quick $ids 2>&1 | grep "^== " 
+  SKIP_REBUILD=1 tools/run_mutant.sh /verif/$d/patch.diff quick $ids 2>&1 | grep "^== " 
 done
 git -C /repo status --porcelain | head -3
+./check --build > /dev/null 2>&1
